@@ -941,8 +941,10 @@ class WeightedTally(StatisticsInterface):
         self._weighted_mean += (weight / self._sum_of_weights 
                 * (value - prev_weighted_mean))
         # Eq 68 in https://fanf2.user.srcf.net/hermes/doc/antiforgery/stats.pdf
-        self._weight_times_variance += (weight * (value - prev_weighted_mean) 
-                * (value - self._weighted_mean))
+        # (the product is never negative mathematically, but rounding of the
+        # new mean can make it so when the weight dwarfs the weights so far)
+        self._weight_times_variance += max(weight * (value 
+                - prev_weighted_mean) * (value - self._weighted_mean), 0.0)
         self._weighted_sum += weight * value;
 
     def n(self) -> int:
